@@ -14,7 +14,7 @@ EXPLANATION = (
     "WebTransportUni arm of the uni-stream acceptor is guarded by the local enable_webtransport setting. "
     "Decides these clauses, not byte-level delivery."
     " C19-b also requires OpenBi/OpenUni to hand out the stream only on a path whose last has_remaining() test of the header buffer was false; C19-c requires both AsyncRead impls of BufRecvStream to poll the transport only with an empty buffer, to report end of stream only then, and to copy out the very chunk they took.")
-RULES = "C19-a id conversions/flows (A4); C19-b header tables, stream handed out only after the header is written in full (A11/A2); C19-c buffer survives split/into_inner/wrappers, unframed readers deliver buffered bytes before end of stream (A4/A13/A3); C19-d gating (A3); shared through a proxy: C16-a under C19-b; C04-e/C04-f (poll_next_varint) under C19-b; C17-b (poll_send) under C19-a"
+RULES = "C19-a id conversions/flows (A4); C19-b header tables, stream handed out only after the header is written in full (A11/A2); C19-c buffer survives split/into_inner/wrappers, unframed readers deliver buffered bytes before end of stream (A4/A13/A3); C19-d gating (A3); shared through a proxy: C16-a under C19-b; C04-e/C04-f (poll_next_varint) under C19-b; C17-b (poll_send) under C19-a; C02-b (UnexpectedEnd conversion) under C19-b"
 
 SID = "h3::webtransport::session_id::SessionId"
 STREAMID = "h3::proto::stream::StreamId"
@@ -214,6 +214,7 @@ def run(ctx):
 
     # ------------------------------------------------------------ C19-c bytes behind the header survive
     shared.bufrecv_poll_data(ctx, "C19-c")
+    shared.push_bytes_takes_everything(ctx, "C19-c")
     # the unframed readers hand out what is buffered before they report anything else
     ars = prog.find(r"^<h3::stream::BufRecvStream as (futures_io|tokio)::.*AsyncRead>::poll_read$")
     ctx.floor("C19-c", "AsyncRead impls of BufRecvStream", len(ars), 2)
@@ -343,6 +344,9 @@ def run(ctx):
         _c04p.run(_shp.Proxy(ctx, ("C04-f", "C04-e"), "C19-b", only=("poll_next_varint",)))
         # the header of every stream the server opens is written through the adapter's unframed write: what it reports as written is
         # what it took from the buffer (C17-b, poll_send), or a partial write drops or repeats part of the session id
+        # the session id behind the WebTransport signal may be split over two chunks: `need more bytes`, not an error (C02-b)
+        from rules import C02 as _c02p
+        _c02p.run(_shp.Proxy(ctx, ("C02-b",), "C19-b", only=("From<h3::proto::coding::UnexpectedEnd>",)))
         if "h3_quinn" in ctx.prog.crates:
             from rules import C17 as _c17p
             _c17p.run(_shp.Proxy(ctx, ("C17-b",), "C19-a", only=("poll_send",)))
